@@ -568,6 +568,21 @@ func (ig *ingest) exactStaleness(ev *Eval, rule string, H *Term, allowed []strin
 			extra = append(extra, key)
 		}
 	}
+	// conditions tested anywhere on the way to the store (a nested or disjunctive test leaves no must-fact behind)
+	allowedCond := map[string]bool{Bin("<", vw(H), k.SView).Key(): true, Bin("<=", k.SView, vw(H)).Key(): true, Bin("==", vw(H), k.SView).Key(): true}
+	if len(allowed) == 0 {
+		allowedCond = map[string]bool{}
+	}
+	for _, ct := range ev.E.PathConds() {
+		ct.Walk(func(t *Term) {
+			if t.Op == "bin" && len(t.Args) == 2 && ((t.Args[0].Key() == vk && t.Args[1].Key() == sk) || (t.Args[0].Key() == sk && t.Args[1].Key() == vk)) {
+				if !allowedCond[t.Key()] {
+					extra = append(extra, "condition "+PP(t))
+				}
+			}
+		})
+	}
+	extra = dedupSorted(extra)
 	text := "no comparison between the message's view and the current view beyond the specified staleness test (liveness: nothing more is dropped)"
 	ev.Verdict(rule, props("C05", "C11"), text, "net", len(extra) == 0, "extra view comparison on the store path: "+strings.Join(extra, ", "))
 }
